@@ -44,7 +44,8 @@ ASSUMPTIONS = [
     'the status page is represented by job.as_json() / get_jobs_as_json()',
 ]
 MIN_NONTRIVIAL = 12
-REQUIRED_COUNTERS = {'c16_placements_reached': 120, 'c16_hang_placements': 10,
+REQUIRED_COUNTERS = {'c16_clone_url_cells': 12,
+                     'c16_placements_reached': 120, 'c16_hang_placements': 10,
                      'c16_url_argv_placements': 10, 'c16_http_calls': 40,
                      'c16_channels_scanned': 500}
 SHARD_TIMEOUT = {'quick': 900, 'thorough': 5400}
@@ -422,6 +423,116 @@ def run_http(acc, level):
                     acc.count('c16_http_secret_was_sent')
 
 
+def run_clone_url_consistency(acc, level):
+    """Two sites that must agree: the clone URL built by the git-host client
+    and the mask BertE gives to its git repository.  A real BertE is built
+    on the github / bitbucket clients (scripted transport), then a git
+    command that prints the clone URL fails through the real
+    Repository.cmd: no secret of the URL may survive in the error, the logs
+    or stdout."""
+    import requests
+    from cryptography.hazmat.primitives import serialization
+    from cryptography.hazmat.primitives.asymmetric import rsa
+    from bert_e.bert_e import BertE
+    from bert_e.git_host import base as ghbase
+    from bert_e.lib.simplecmd import CommandError
+    from vf.func import stubs
+    from vf.http import c17_scripted as sc
+    key = rsa.generate_private_key(public_exponent=65537, key_size=2048)
+    pem = key.private_bytes(
+        serialization.Encoding.PEM, serialization.PrivateFormat.PKCS8,
+        serialization.NoEncryption()).decode()
+    TOKEN = 'ghs_InstallationTokenSENTINEL9876543210'
+    for host, app in (('github', False), ('github', True),
+                      ('bitbucket', False)):
+        for pwclass, pw in sorted(PASSWORDS.items()):
+            if pwclass == 'non-ascii' and host == 'bitbucket':
+                continue          # requests cannot send it as basic auth
+            def responder(req):
+                if 'access_tokens' in req.path:
+                    return sc.Reply(201, json={'token': TOKEN})
+                if host == 'github':
+                    return sc.Reply(200, json={
+                        'name': 'slug', 'full_name': 'owner/slug',
+                        'owner': {'login': 'owner', 'id': 1,
+                                  'type': 'User'},
+                        'private': True, 'default_branch': 'main'})
+                return sc.Reply(200, json={
+                    'name': 'slug', 'full_name': 'owner/slug', 'scm': 'git',
+                    'is_private': True, 'owner': {'username': 'owner'},
+                    'account_id': 'acc-1', 'uuid': '{u}'})
+            adapter = sc.ScriptedAdapter(responder=responder)
+            real_session = ghbase.BertESession
+
+            class ScriptedSession(real_session):
+                def __init__(self, *a, **k):
+                    super().__init__(*a, **k)
+                    self.mount('https://', adapter)
+                    self.mount('http://', adapter)
+            ghbase.BertESession = ScriptedSession
+            if host == 'bitbucket':
+                from bert_e.git_host import bitbucket
+                bases = bitbucket.Client.__bases__
+                bitbucket.Client.__bases__ = tuple(
+                    ScriptedSession if b is real_session else b
+                    for b in bases)
+            over = {'repository_host': host, 'robot': 'robot'}
+            if app:
+                over.update(github_app_id=1234, github_installation_id=5678)
+            settings = stubs.make_settings(**over)
+            settings['robot_password'] = pw
+            if app:
+                settings['github_private_key'] = pem
+            errs, url = [], None
+            with Capture(level) as cap:
+                try:
+                    berte = BertE(settings)
+                    url = berte.git_repo._url
+                    try:
+                        berte.git_repo.cmd(
+                            'echo "fatal: unable to access %s/: Could not '
+                            'resolve host"; exit 128', url)
+                    except CommandError as err:
+                        errs.append(err)
+                        logging.getLogger('harness').exception(
+                            'git failed: %s', err)
+                    berte.git_repo.delete()
+                except Exception as err:
+                    errs.append(err)
+            ghbase.BertESession = real_session
+            if host == 'bitbucket':
+                bitbucket.Client.__bases__ = bases
+            acc.evals += 1
+            flow = '%s%s' % (host, '-app' if app else '')
+            if url is None:
+                acc.count('c16_clone_url_setup_failed')
+                acc.notes.append('clone-url consistency %s/%s: %s' % (
+                    flow, pwclass, [str(e)[:120] for e in errs]))
+                continue
+            acc.count('c16_clone_url_cells')
+            acc.nontrivial('clone-url|%s|%s|%s' % (
+                flow, pwclass, logging.getLevelName(level)))
+            ch = cap.channels()
+            for e in errs:
+                ch.append(('exception-str', str(e)))
+            secrets = sentinels(pw) + [TOKEN]
+            # only secrets that really are in the URL can leak from it
+            secrets = [x for x in secrets if x in url]
+            if not secrets:
+                acc.count('c16_clone_url_without_known_secret')
+            hits = scan(ch, secrets)
+            acc.count('c16_channels_scanned', len(ch))
+            for channel, snippet in hits:
+                acc.violation(
+                    'clone-url-secret-not-covered-by-the-mask:%s:%s' % (
+                        flow, channel),
+                    '%s client, password class %s: a failing git command '
+                    'that prints the clone URL leaves a secret in %s: '
+                    '...%s...' % (flow, pwclass, channel, snippet[:200]),
+                    {'http': True, 'clone_url': True, 'flow': flow,
+                     'pwclass': pwclass})
+
+
 def run_shard(spec, acc):
     runner.quiet()
     rng = random.Random('c16-%s-%s' % (spec['seed'], spec['shard']))
@@ -450,6 +561,9 @@ def run_shard(spec, acc):
                                                 str(err)[:300]))
     if spec['shard'] in (0, 1):
         run_http(acc, [logging.DEBUG, logging.INFO][spec['shard']])
+    if spec['shard'] in (2, 3):
+        run_clone_url_consistency(
+            acc, [logging.DEBUG, logging.INFO][spec['shard'] - 2])
 
 
 def finalize(acc, tier, seed):
@@ -462,6 +576,9 @@ def finalize(acc, tier, seed):
 
 def replay(witness, acc):
     runner.quiet()
+    if witness.get('clone_url'):
+        run_clone_url_consistency(acc, logging.DEBUG)
+        return
     if witness.get('http'):
         run_http(acc, logging.DEBUG)
         return
